@@ -15,6 +15,9 @@ def run(chk):
         n = 4 if chk.tier == "quick" else 10
         total = opcheck.key_trace(chk, sc, "TraceDomination", "harness.drive_domination", 0, [chk.seed, n], timeout=3000)
         chk.notes["domination_lattice_points"] = total
+        # confirmation rule at its boundary: real handlers, scripted rates, the draw forced next to the decision boundary
+        nb = opcheck.key_trace(chk, sc, "TraceThin", "harness.drive_thin", 0, [chk.seed, 3 if chk.tier == "quick" else 40])
+        chk.notes["confirmation_boundary_cases"] = nb
         # the configured pairs of every shipped configuration that uses the 1/r bound (prefactors from the .ini files)
         from concurrent.futures import ThreadPoolExecutor
         from harness import runs
